@@ -10,8 +10,10 @@ real_contract, np.linalg.svd by contract):
   values.select   s = S[0::4][:R] of the small real SVD;
   rng.global      the Gaussian test matrix comes from np.random.randn (global generator), drawn once;
   lift.orthonormal  (Q1 U_s)^H (Q1 U_s) = I for factors with orthonormal columns (free algebra).
-Orthonormality / interlacing / Eckart-Young bounds / exactness on rank <= R depend on the QR and SVD
-contractions (C05, C06 and their known findings) and are decided by the bounded stand-in over a seeded grid."""
+  orthonormal     (free algebra, every n_iter / n_passes) with qr_qua and the contraction of the small SVD's vectors by their C06 / C05 contracts the
+                  bases that reach the lift-back have orthonormal columns (loop invariants) and so have the returned U and V.
+Interlacing / Eckart-Young bounds / exactness on rank <= R, and orthonormality where the C05 / C06 contracts fail (their known findings), are decided
+by the bounded stand-in over a seeded grid."""
 from __future__ import annotations
 
 import itertools
@@ -26,7 +28,7 @@ from .. import smt
 from ..core import Bounded, Obligation, Report, run_case
 from ..libmodel import Library
 from ..nc import NC, Atom
-from ..sym import Ctx, SInt, SReal, SBool, cur, sand, snot, sor, smin
+from ..sym import Ctx, OutOfReach, SInt, SReal, SBool, cur, sand, snot, sor, smin
 from .c01 import dims
 from .c05 import lapack_svd
 
@@ -241,6 +243,200 @@ def deductive(rep: Report, tier):
 
 
 # ---------------------------------------------------------------------------------------------------
+def orthonormal_factors(rep: Report):
+    """Matrix level (free quaternion *-algebra), every n_iter >= 0 / n_passes >= 2: with qr_qua by its C06 contract (Q has orthonormal columns) and the
+    contraction of the small real SVD's singular vectors by its C05 contract (orthonormal columns; both contracts carry the recorded findings for
+    rank-deficient / repeated-value input), the returned factors  U = Q_1 U_small,  V = Q_2 V_small  have orthonormal columns - because the Q's that
+    reach the lift-back are Q factors of qr_qua (loop invariant), possibly with trailing columns cut off."""
+    from ..interp import LoopRule
+    from ..kernels import ALGEBRA
+    from ..values import HMat, fresh_hmat
+
+    class OrthMat(HMat):
+        """matrix with orthonormal columns; leading columns of it again have orthonormal columns"""
+
+        def getitem(self, idx):
+            if isinstance(idx, tuple) and len(idx) == 2 and idx[0] == slice(None) and isinstance(idx[1], slice) and idx[1].start is None and idx[1].step is None:
+                k = idx[1].stop
+                c = cur()
+                if c.decide(SBool.mk(SInt.lift(k) >= SInt.lift(self.p.cols))):
+                    return self                          # numpy clamps a slice that reaches past the last column
+                return orth(self.p.rows, k, "Qcut")
+            return HMat.getitem(self, idx)
+
+    def orth(rows, cols, name):
+        return OrthMat(NC.atom(Atom(cur().fresh_name(name), rows, cols, "orthcols", alg="H")))
+
+    class Opaque3:
+        qv_value = True
+
+        def __init__(self, shape, tag=""):
+            self.shape, self.tag = tuple(shape), tag
+
+        def has_attr(self, name):
+            return name in ("shape", "T", "dtype")
+
+        @property
+        def T(self):
+            return Opaque3(tuple(reversed(self.shape)), self.tag)
+
+        @property
+        def dtype(self):
+            from ..values import F64
+            return F64
+
+        def getitem(self, idx):
+            return Opaque3(self.shape, self.tag)
+
+        def setitem(self, idx, val):
+            pass
+
+    def randn(*shape):
+        cur().ghost.setdefault("randn", []).append(shape)
+        return Opaque3(shape, "gauss")
+
+    def alloc(what, shape, dtype):
+        shp = shape if isinstance(shape, tuple) else (shape,)
+        if what in ("zeros", "empty") and len(shp) == 3:
+            return Opaque3(shp, "components")
+        return None
+
+    def as_quat_array(a):
+        if isinstance(a, Opaque3) and len(a.shape) == 3:
+            return fresh_hmat(cur().fresh_name("Omega"), a.shape[0], a.shape[1])
+        raise OutOfReach("as_quat_array form")
+
+    def k_qr(I, args, kwargs):
+        (Y,) = args
+        m_, k_ = Y.shape
+        r_ = smin(m_, k_)
+        return orth(m_, r_, "Qf"), fresh_hmat(cur().fresh_name("Rf"), r_, k_)
+
+    def k_expand(I, args, kwargs):
+        return Opaque3((4 * args[0].shape[0], 4 * args[0].shape[1]), "real")
+
+    def svd(a, full_matrices=True, **kw):
+        cur().ghost.setdefault("svd_calls", []).append(a)
+        return Opaque3(a.shape, "svdU"), Opaque3((a.shape[0],), "svdS"), Opaque3(a.shape, "svdVt")
+
+    def k_contract(I, args, kwargs):
+        Rm, k_, r_ = args
+        if isinstance(Rm, Opaque3) and Rm.tag in ("svdU", "svdVt"):
+            return orth(k_, r_, "Small")            # C05: contracted singular vectors have orthonormal columns
+        raise OutOfReach("real_contract of something that is not a block of singular vectors")
+
+    def orthonormal(Q):
+        """status of  Q^H Q = I  in the free algebra (an identity there, or not an identity for all inputs)"""
+        if not isinstance(Q, HMat):
+            return smt.REFUTED
+        return ncm.nc_equal_obligation(Q.p.star @ Q.p, NC.eye(Q.p.cols), cur().hyps())[0]
+
+    class PowerNC(LoopRule):
+        modifies = ("Q1",)
+
+        def establish(self, it, fr, start):
+            cur().ghost.setdefault("emit", []).append(("power.establish.Q1_has_orthonormal_columns", orthonormal(fr.vars.get("Q1")), "normal-form", 0.0, None))
+
+        def havoc(self, it, fr, k):
+            c = cur()
+            X = fr.vars["X_quat"]
+            m_, n_ = X.shape
+            w = SInt.var(c.fresh_name("w"))
+            RP = fr.vars["R"] + fr.vars["P"]
+            c.assume(sand(w >= smin(smin(m_, n_), RP), w <= smin(m_, RP)))
+            fr.vars["Q1"] = orth(m_, w, "Q1inv")
+
+        def preserve(self, it, fr, k):
+            cur().ghost.setdefault("emit", []).append(("power.preserve.Q1_has_orthonormal_columns", orthonormal(fr.vars.get("Q1")), "normal-form", 0.0, None))
+
+    class PassNC(LoopRule):
+        """pass loop, i >= 3 (two passes done): Q1 and Q2 are Q factors of qr_qua; widths as in the shape invariant (PassLoop)"""
+        modifies = ("Q1", "Q2", "R1", "R2")
+
+        def establish(self, it, fr, start):
+            self.sketch = fr.vars.get("Q1")
+
+        def havoc(self, it, fr, k):
+            c = cur()
+            X = fr.vars["X_quat"]
+            m_, n_ = X.shape
+            RP = fr.vars["R"] + fr.vars["P"]
+            if c.decide(SBool.mk(SInt.lift(k) == 1)):
+                fr.vars["Q1"] = self.sketch
+                for x in ("Q2", "R1", "R2"):
+                    fr.vars.pop(x, None)
+                return
+            if c.decide(SBool.mk(SInt.lift(k) == 2)):
+                b_ = smin(m_, RP)
+                fr.vars["Q1"] = self.sketch
+                fr.vars["Q2"], fr.vars["R2"] = orth(m_, b_, "Q2inv"), fresh_hmat(c.fresh_name("R2inv"), b_, RP)
+                fr.vars.pop("R1", None)
+                return
+            a_, b_ = SInt.var(c.fresh_name("a")), SInt.var(c.fresh_name("b"))
+            lo = smin(smin(m_, n_), RP)
+            odd = SBool.mk(SInt.lift(k) % 2 == 1)
+            c.assume(sand(a_ >= lo, a_ <= smin(n_, RP), b_ >= lo, b_ <= smin(m_, RP), sor(snot(odd), a_ == smin(n_, b_)), sor(odd, b_ == smin(m_, a_))))
+            fr.vars["Q1"], fr.vars["Q2"] = orth(n_, a_, "Q1inv"), orth(m_, b_, "Q2inv")
+            fr.vars["R1"] = fresh_hmat(c.fresh_name("R1inv"), a_, b_)
+            fr.vars["R2"] = fresh_hmat(c.fresh_name("R2inv"), b_, a_)
+
+        def preserve(self, it, fr, k):
+            c = cur()
+            rec = c.ghost.setdefault("emit", [])
+            Q1, Q2 = fr.vars.get("Q1"), fr.vars.get("Q2")
+            if c.valid(SBool.mk(SInt.lift(k) == 1)) is True:
+                rec.append(("pass.preserve.first_pass_gives_orthonormal_columns", orthonormal(Q2), "normal-form", 0.0, None))
+            else:
+                s1, s2 = orthonormal(Q1), orthonormal(Q2)
+                rec.append(("pass.preserve.both_bases_have_orthonormal_columns", smt.PROVED if (s1 == smt.PROVED and s2 == smt.PROVED) else (smt.REFUTED if smt.REFUTED in (s1, s2) else smt.UNDECIDED), "normal-form", 0.0, None))
+
+    def mk():
+        from ..values import NDARRAY
+        lib = Library("nc")
+        lib.qmode = "H"
+        lib.extra_types.append(lambda v, T: (T is NDARRAY) if isinstance(v, Opaque3) else None)
+        lib.alloc_hooks.append(alloc)
+        lib.np.table["random"].table["randn"] = randn
+        lib.np.table["linalg"].table["svd"] = svd
+        lib.quaternion.table["as_quat_array"] = as_quat_array
+        return lib
+    contracts = dict(ALGEBRA)
+    contracts.update({QS + "qr_qua": k_qr, U + "real_expand": k_expand, U + "real_contract": k_contract})
+
+    def post(I, ctx, outcome, val, aux):
+        X, m, n, R = aux
+        g = ctx.ghost
+        if outcome == "loop_end":
+            return list(g.get("emit", []))
+        if outcome != "return" or not (isinstance(val, tuple) and len(val) == 3 and isinstance(val[0], HMat) and isinstance(val[2], HMat)):
+            return [("returns_factors", False)] if outcome == "return" else []
+        Uq, Vq = val[0], val[2]
+        out = list(g.get("emit", [])) + [("returns_factors", True)]
+        st, be, secs, wit = ncm.nc_equal_obligation(Uq.p.star @ Uq.p, NC.eye(R), ctx.hyps())
+        out.append(("U_has_orthonormal_columns", st, be, secs, wit or None))
+        st, be, secs, wit = ncm.nc_equal_obligation(Vq.p.star @ Vq.p, NC.eye(R), ctx.hyps())
+        out.append(("V_has_orthonormal_columns", st, be, secs, wit or None))
+        return out
+
+    def setup_for(param, lo):
+        def setup(I, ctx):
+            m, n, R = dims(ctx, "m", "n", "R")
+            Pv = SInt.var("oversample")
+            ctx.assume(sand(R <= m, R <= n, Pv >= 0), base=True)
+            cnt = SInt.var(param)
+            ctx.assume(cnt >= lo, base=True)
+            X = fresh_hmat("X", m, n)
+            return [X, R], {"oversample": Pv, param: cnt}, (X, m, n, R)
+        return setup
+    run_case(rep, P, QS + "rand_qsvd", "orthonormal.all_n_iter", setup_for("n_iter", 0), post, lib=mk(), contracts=contracts, loop_rules={(QS + "rand_qsvd", 0): PowerNC()},
+             clauses=["returns_factors", "U_has_orthonormal_columns", "V_has_orthonormal_columns", "power.establish.Q1_has_orthonormal_columns", "power.preserve.Q1_has_orthonormal_columns"],
+             replay=replay_rand, timeout_s=30, loop_end=True, site_obligations=False)
+    run_case(rep, P, QS + "pass_eff_qsvd", "orthonormal.all_n_passes", setup_for("n_passes", 2), post, lib=mk(), contracts=contracts, loop_rules={(QS + "pass_eff_qsvd", 0): PassNC()},
+             clauses=["returns_factors", "U_has_orthonormal_columns", "V_has_orthonormal_columns", "pass.preserve.first_pass_gives_orthonormal_columns", "pass.preserve.both_bases_have_orthonormal_columns"],
+             replay=replay_rand, timeout_s=30, loop_end=True, site_obligations=False)
+
+
+# ---------------------------------------------------------------------------------------------------
 def check_rand(A4, R, algo, params, seed, rank):
     from .. import runtime as rt
     r = rt.real()
@@ -354,6 +550,7 @@ def run(tier, seed):
     ]
     rep.trusted += ["qv engine", "z3 5.1", "library model"]
     deductive(rep, tier)
+    orthonormal_factors(rep)
     from ..frame import no_module_state
     no_module_state(rep, P, [QS + "rand_qsvd", QS + "pass_eff_qsvd"])
     bounded(rep, tier, seed)
